@@ -377,7 +377,23 @@ pub fn cmp_stmt(m: &S, g: ast::Stmt, _outer: &str) -> Result<(), Mismatch> {
             }
             Ok(())
         }
-        (SK::OldReg(..), ast::Stmt::OldStyleDeclarationStatement(_)) => Ok(()),
+        (SK::OldReg(q, n, k), ast::Stmt::OldStyleDeclarationStatement(d)) => {
+            use oq3_syntax::ast::HasName;
+            let tp = need(d.old_typed_param(), "oldreg/param", "old_typed_param()")?;
+            if tp.qreg_token().is_some() != *q || tp.creg_token().is_some() == *q {
+                return mm("oldreg/keyword", format!("qreg {} / creg {} vs model qreg={q}", tp.qreg_token().is_some(), tp.creg_token().is_some()));
+            }
+            let name = need(tp.name(), "oldreg/name", "name()")?.string();
+            if name != *n {
+                return mm("oldreg/name", format!("{name} vs {n}"));
+            }
+            let des = need(need(tp.designator(), "oldreg/designator", "designator()")?.expr(), "oldreg/designator", "expr()")?;
+            let got = des.syntax().text().to_string();
+            if got.trim() != k.to_string() {
+                return mm("oldreg/size", format!("{got} vs {k}"));
+            }
+            Ok(())
+        }
         (SK::Io(inp, t, n), ast::Stmt::IODeclarationStatement(d)) => {
             if d.input_token().is_some() != *inp || d.output_token().is_some() == *inp {
                 return mm("io/direction", "input/output token".into());
@@ -578,7 +594,14 @@ pub fn cmp_stmt(m: &S, g: ast::Stmt, _outer: &str) -> Result<(), Mismatch> {
                 mm("include/path", format!("{got:?} vs {p}"))
             }
         }
-        (SK::Version(_), ast::Stmt::VersionString(_)) => Ok(()),
+        (SK::Version(v), ast::Stmt::VersionString(vs)) => {
+            let got = need(vs.version(), "version/number", "version()")?.syntax().text().to_string();
+            if got.trim() == v.trim() {
+                Ok(())
+            } else {
+                mm("version/number", format!("{got:?} vs {v:?}"))
+            }
+        }
         (_, _) => mm(&format!("{role}/statement-kind"), format!("the derivation has a {role} statement, the AST has {gk}")),
     }
 }
